@@ -106,6 +106,8 @@ package builder
 
 //@ func data/builder.BuildUnixFSFile
 //@ prop C07 C10
+//@ at return ghost builtSize(result0) = result1
+//@ ensures reports-the-size-it-returns: err == nil ==> builtSize(result0) == result1
 //@ at call github.com/ipfs/boxo/chunker.FromString#1 assert the-input-is-read-only-through-the-splitter: callee_r == old(r) && callee_chunker == old(chunker)
 //@ at call data/builder.fileTreeRecursive#1 assert each-round-adds-one-level-on-top-of-the-previous-root: callee_depth == depth && len(callee_children) <= 1
 //@ ensures any-write-failure-fails-the-build: (err == nil ==> storeFailed == old(storeFailed)) && (old(storeFailed) ==> storeFailed)
@@ -184,6 +186,8 @@ package builder
 //@ spec def tsizeSum(s []github.com/ipld/go-codec-dagpb.PBLink, n int) uint64 = sum(k, 0, n, uint64(s[k].Tsize.v.x))
 //@ func data/builder.BuildUnixFSDirectory
 //@ prop C11
+//@ at return ghost builtSize(result0) = result1
+//@ ensures reports-the-size-it-returns: err == nil ==> builtSize(result0) == result1
 //@ loop 0 invariant running-total-counts-every-entry: totalSize == tsizeSum(entries, rangeindex + 1)
 //@ at return assert size-is-block-plus-entry-sizes: err == nil ==> result1 == tsizeSum(entries, len(entries)) + sz
 //@ ensures any-write-failure-fails-the-build: (err == nil ==> storeFailed == old(storeFailed)) && (old(storeFailed) ==> storeFailed)
